@@ -88,7 +88,7 @@ def _model(ctx, files):
     negs = ["Neg_Dedup", "Neg_WriteAhead", "Neg_LeaveOnSeen", "Neg_InGroup", "Neg_FateCheck"]
     if ctx.thorough:
         negs += ["Neg_Agreement", "Neg_Fairness"]
-        for c in ("MC_DupDkg", "MC_DupRelay", "MC_Stop", "MC_BadDkg", "MC_BadRelay"):
+        for c in ("MC_DupDkg", "MC_DupRelay", "MC_Stop", "MC_BadDkg", "MC_BadRelay", "MC_aabc"):
             jobs.append(("mc", c, dict(timeout=2400)))
         jobs.append(("live", "MC_Live", dict(timeout=2400)))
     for c in negs:
